@@ -159,6 +159,15 @@ def catalogue():
     add("where-frame", "local", [S("v1", "cols", ["A"], cols=["f", "g"]), S("v2", "col", ["A"], col="b"), S("v3", "where", ["v1", "v2"], how="mask", other=-1)])
     add("reset_index-keep", "local", [S("v1", "reset_index", ["A"], drop=False)])
     add("astype-fillna-clip", "local", [S("v1", "astype", ["A"], to={"i": "float64"}), S("v2", "fillna", ["v1"], value={"f": 0.0, "g": 1.0}), S("v3", "col", ["v2"], col="f"), S("v4", "clip", ["v3"], lower=-1, upper=1)])
+    # (new entries are appended: cases refer to catalogue positions)
+    # grouping by the *name of the index* (values repeat: [0,0,1,2,2,3,5,5]); the cuts split runs of equal labels and the divisions are unknown
+    IDX = {"kind": "int", "name": "idx", "values": [0, 0, 1, 2, 2, 3, 5, 5]}
+    for how in ("transform_sum", "apply_demean", "shift", "cumsum", "cumcount"):
+        C.append({"name": f"gbw-index-{how}", "fam": "groupby", "steps": [S("v1", "groupby_window", ["A"], by="idx", col="i", how=how)], "out": "v1", "index": IDX})
+    for how in ("median", "prod"):
+        C.append({"name": f"gbh-index-{how}", "fam": "groupby", "steps": [S("v1", "groupby_holistic", ["A"], by=["idx"], cols=["i", "f"], how=how, series=False)], "out": "v1", "index": IDX})
+    for how in ("sum", "mean", "nunique", "var"):
+        C.append({"name": f"gb-index-{how}", "fam": "groupby", "steps": [S("v1", "groupby_agg", ["A"], by=["idx"], col="f", how=how, split_out=1, sort=None)], "out": "v1", "index": IDX})
     return C
 
 
@@ -225,7 +234,12 @@ def expand(case):
     if case["known"]:
         lb = dict(lb, known=True)
     tmpl = {"name": t["name"], "steps": t["steps"], "out": t["out"]}
-    prog = templates._expand(tmpl, la, {"kind": "range", "name": None}, lb, ["tasks", "disk"][(len(case["cuts"]) + case["t"]) % 2])
+    index_a = {"kind": "range", "name": None}
+    if t.get("index"):
+        # a repeating index: the cuts may split a run of equal labels, so the divisions stay unknown
+        index_a = t["index"]
+        la = {"kind": "from_map", "cuts": case["cuts"]}
+    prog = templates._expand(tmpl, la, index_a, lb, ["tasks", "disk"][(len(case["cuts"]) + case["t"]) % 2])
     # A2: same rows as A, other layout (for mis-aligned operations)
     if any("A2" in s["in"] for s in prog["steps"]):
         for s in prog["steps"]:
